@@ -57,6 +57,38 @@ def potable_layer(group):
   return res
 
 
+DONORS = [
+  # well-formed models that define things the malformed entries lack (species data for Qq, forms, tables, variables):
+  # reading them first in the same process must not make a malformed model acceptable
+  cat.eam_model(body=cat.EAM_BODY.replace("B : as.sqrt -1.0", "Qq : as.sqrt -1.0").replace("B : as.polynomial 0 0.5", "Qq : as.polynomial 0 0.5")
+                + "Qq.atomic_number : 1\nQq.atomic_mass : 2.014\n"),
+  cat.pair_model(body=cat.PAIR_BODY + "\n[Potential-Form]\n".replace("[Potential-Form]\n", "") + ""),
+  cat.pair_model(body="\n[Pair]\nA-B : nosuch 1.0\nA-A : bucky 1.0\n\n[Potential-Form]\nnosuch(r, A) = A\nbucky(r, A) = A\nC(r) = 1.0\n\n[Table-Form:tab]\nx : 0 1 2 3 4 5 6\ny : 6 5 4 3 2 1 0\n"),
+  "[Variables]\nnope : 1.0\n\n" + cat.pair_model(),
+]
+
+
+def history_layer():
+  """Concrete replay layer: the whole malformed catalogue after a series of well-formed 'donor' models has been read in the same process."""
+  import xh.c16_errors as xe
+  res = new_result("potable end-to-end after other models were read in the same process")
+  for d in DONORS:
+    st, ce, size = xe.run_potable(d)
+    res["replays"] += 1
+    if st != "exit 0":
+      res["harness_errors"].append("donor model does not tabulate: %s" % st)
+  for group in GROUPS:
+    for label, text in xe.MAL[group]:
+      st, ce, size = xe.run_potable(text)
+      res["paths"] += 1
+      res["replays"] += 1
+      if not (st == "exit 2" and ce and not size):
+        res["violations"].append(dict(key="history-%s-%s" % (group, label.replace(" ", "-")),
+                                      desc="after other (well-formed) models were read in the same process the malformed model (%s / %s) is no longer refused: potable ends with %s%s" % (
+                                        group, label, st, ", %d bytes written" % size if size else ""), record=dict(model=text, donors=DONORS)))
+  return res
+
+
 def spline_symbolic_case(kind, nparts):
   """The spline() modifier's validation over symbolic range starts and r_min."""
   res = new_result("spline modifier validation: %s with %d parts" % (kind, nparts))
@@ -133,6 +165,7 @@ def cases(tier, seed=0):
   cs = [Case("xh %s" % n, xh_case, name=n, timeout=200 if q else 600) for n in CONDS]
   for g in GROUPS + ["valid"]:
     cs.append(Case("potable %s" % g, potable_layer, group=g))
+  cs.append(Case("potable history", history_layer))
   for kind in ("exp_spline", "buck4_spline"):
     for n in (1, 2, 3, 4):
       cs.append(Case("spline %s %d" % (kind, n), spline_symbolic_case, kind=kind, nparts=n))
